@@ -1,5 +1,6 @@
 import ALV.Common.Json
 import ALV.Model.C17
+import ALV.Model.C17Fine
 import ALV.Spec.C17
 namespace ALV.Driver.C17
 open ALV ALV.J ALV.C17
@@ -15,7 +16,7 @@ def ctlEvt (cfg : Cfg) (k : Ctl) : String := if ctlGo cfg k then "set" else "cle
 /-- name of the pending operation, in the vocabulary of harness/sched.py -/
 def mainLabel (cfg : Cfg) : MPc → Option String
   | .begin => some "begin"
-  | .pAcq _ => some "mlock.acq"
+  | .pAcq _ _ => some "mlock.acq"
   | .pRaiseRel => some "mlock.rel"
   | .pGoSet i => some s!"go{i}.set"
   | .pOpen _ => some "pa.open"
@@ -77,10 +78,15 @@ def evJson : Ev → Json
 def sstStr : SSt → String
   | .unopened => "unopened" | .active => "active" | .stopped => "stopped" | .closed => "closed"
 
-def parseCmd (j : Json) : Except String Cmd := do
+/-- `["play", samples]` plays with the request's default chunk size, `["play", samples, cs]` with its own -/
+def parseCmd (dcs : Nat) (j : Json) : Except String Cmd := do
   let a ← getArr j
   match a with
-  | [Json.str "play", xs] => pure (.play (← getList getInt xs))
+  | [Json.str "play", xs] => pure (.play (← getList getInt xs) dcs)
+  | [Json.str "play", xs, c] =>
+    let c ← getNat c
+    if c = 0 then throw "chunk size must be positive"
+    pure (.play (← getList getInt xs) c)
   | [Json.str "pause", i] => pure (.ctl .pause (← getNat i))
   | [Json.str "resume", i] => pure (.ctl .resume (← getNat i))
   | [Json.str "stop", i] => pure (.ctl .stop (← getNat i))
@@ -97,16 +103,77 @@ def replay (cfg : Cfg) : State → List Nat → List String → State × List St
     | some s' => replay cfg s' cs (rec_ :: acc)
     | none => (s, (rec_ :: acc).reverse, some acc.length)
 
+
+/-! ### the fine-grained system (`entry = "fine"`): every pull from a played iterable is a step -/
+
+def playerLabelF (fs : FState) (i : Nat) (pc : PPc) : Option String :=
+  if pulling fs i then some s!"it{i}.pull" else playerLabel i pc
+
+def pendStrF (fc : FCfg) (fs : FState) : String :=
+  let s := fs.base
+  let m := match mainLabel fc.cfg s.mpc with
+    | some l => [s!"0:{l}:{if enabledF fc fs .main then 1 else 0}"]
+    | none => []
+  let ps := (List.range s.players.length).filterMap fun i =>
+    match s.players[i]? with
+    | some p => (playerLabelF fs i p.pc).map fun l =>
+        s!"{i + 1}:{l}:{if enabledF fc fs (.player i) then 1 else 0}"
+    | none => none
+  ",".intercalate (m ++ ps)
+
+def replayF (fc : FCfg) : FState → List Nat → List String → FState × List String × Option Nat
+  | fs, [], acc => (fs, acc.reverse, none)
+  | fs, c :: cs, acc =>
+    let rec_ := s!"{c}|{pendStrF fc fs}"
+    match stepF fc fs (numTid c) with
+    | some fs' => replayF fc fs' cs (rec_ :: acc)
+    | none => (fs, (rec_ :: acc).reverse, some acc.length)
+
+def handleFine (j : Json) : Except String Json := do
+  let wait ← getBool (← field j "wait")
+  let fixed ← getBool (← field j "fixed")
+  let dieFixed ← getBool (← field j "dieFixed")
+  let cs ← getNat (← field j "cs")
+  if cs = 0 then throw "cs must be positive"
+  let script ← getList (parseCmd cs) (← field j "script")
+  let fails ← getList getBool (← field j "fails")
+  let sched ← getList getNat (← field j "schedule")
+  let fc : FCfg := { cfg := { wait := wait, fixed := fixed }, fails := fails, dieFixed := dieFixed }
+  let (fs, steps, bad) := replayF fc (initF script) sched []
+  let s := fs.base
+  let outcome :=
+    match bad with
+    | some k => s!"not-enabled@{k}"
+    | none => if allDone s then "done" else if terminalF fc fs then "deadlock" else "unfinished"
+  let streams := (List.range s.players.length).filterMap fun i =>
+    match s.players[i]?, fs.asm[i]? with
+    | some p, some a => some <| Json.mkObj [
+        ("written", arr (arr intToJson) p.written), ("state", Json.str (sstStr p.sst)),
+        ("alive", Json.bool (p.pc != .done && p.pc != .new)), ("halting", Json.bool p.halting),
+        ("go", Json.bool p.go), ("buf", arr intToJson a.buf), ("unpulled", natToJson a.rest.length)]
+    | _, _ => none
+  let audios := script.filterMap fun c => match c with | .play a c => some (a, c) | _ => none
+  pure <| Json.mkObj [
+    ("model", Json.mkObj [
+      ("steps", arr Json.str steps), ("final", Json.str (pendStrF fc fs)),
+      ("outcome", Json.str outcome), ("log", arr evJson s.log), ("streams", Json.arr streams),
+      ("terminates", natToJson s.terminated), ("finished", Json.bool s.finished),
+      ("threads", nats s.threads), ("perr", Json.bool s.perr),
+      ("closedAfter", Json.bool (closedAfter s)), ("noneAlive", Json.bool (noneAlive s))]),
+    ("spec", Json.mkObj [
+      ("chunks", arr (fun (a : List Int × Nat) => arr (arr intToJson) (chunksSpec a.2 a.1)) audios)])]
+
 def handle (entry : String) (j : Json) : Except String Json := do
   match entry with
+  | "fine" => handleFine j
   | "sched" =>
     let wait ← getBool (← field j "wait")
     let fixed ← getBool (← field j "fixed")
     let cs ← getNat (← field j "cs")
     if cs = 0 then throw "cs must be positive"
-    let script ← getList parseCmd (← field j "script")
+    let script ← getList (parseCmd cs) (← field j "script")
     let sched ← getList getNat (← field j "schedule")
-    let cfg : Cfg := { wait := wait, fixed := fixed, cs := cs }
+    let cfg : Cfg := { wait := wait, fixed := fixed }
     let (s, steps, bad) := replay cfg (init script) sched []
     let outcome :=
       match bad with
@@ -116,7 +183,7 @@ def handle (entry : String) (j : Json) : Except String Json := do
       ("written", arr (arr intToJson) p.written), ("state", Json.str (sstStr p.sst)),
       ("alive", Json.bool (p.pc != .done && p.pc != .new)), ("halting", Json.bool p.halting),
       ("go", Json.bool p.go)]
-    let audios := script.filterMap fun c => match c with | .play a => some a | _ => none
+    let audios := script.filterMap fun c => match c with | .play a c => some (a, c) | _ => none
     pure <| Json.mkObj [
       ("model", Json.mkObj [
         ("steps", arr Json.str steps), ("final", Json.str (pendStr cfg s)),
@@ -125,7 +192,7 @@ def handle (entry : String) (j : Json) : Except String Json := do
         ("threads", nats s.threads), ("perr", Json.bool s.perr),
         ("closedAfter", Json.bool (closedAfter s)), ("noneAlive", Json.bool (noneAlive s))]),
       ("spec", Json.mkObj [
-        ("chunks", arr (fun a => arr (arr intToJson) (chunksSpec cs a)) audios)])]
+        ("chunks", arr (fun (a : List Int × Nat) => arr (arr intToJson) (chunksSpec a.2 a.1)) audios)])]
   | _ => throw s!"C17: unknown entry {entry}"
 
 end ALV.Driver.C17
